@@ -16,7 +16,7 @@ import itertools
 
 from sa.canon import (f_show, f_implies, f_and, f_not, f_or, f_atoms, f_eval, f_subst, A,
                       EXISTS_PRETTY)
-from .gates import GATES, REQUIRED, facts, draw_fail, comp_t, NETWORK_GATES
+from .gates import GATES, REQUIRED, facts, draw_fail, comp_t, NETWORK_GATES, HOST_GATES
 
 EXPLANATION = (
     "From the per-class gate tables: the random-draw call sites and the atoms that mention "
@@ -101,12 +101,17 @@ def run(ctx, chk):
         req = [g for g in REQUIRED[K] if not g.startswith("D")]
         dep = {}     # gate -> example
         partition_bad = None
+        from .c01 import failure_site
+        site_of_hit = {id(o): failure_site(cf, o) for _, o in outs}
+        hit0 = None
         for bits in itertools.product((False, True), repeat=len(others)):
             v = dict(zip(others, bits))
             sigs = []
             for dv in (False, True):
                 v[DRAW_ATOM] = dv
                 hit = [o for G, o in outs if f_eval(G, v)]
+                if not dv:
+                    hit0 = hit
                 if len(hit) != 1:
                     partition_bad = (dict(v), len(hit))
                     sigs.append(None)
@@ -114,20 +119,35 @@ def run(ctx, chk):
                     sigs.append(signature(hit[0], cn))
             if None in sigs or sigs[0] == sigs[1]:
                 continue
-            # which gate fails first?
+            site0 = site_of_hit.get(id(hit0[0])) if hit0 else None
+            # preconditions hold iff some value of the draw leads to success (derived, not oracle):
+            # then the result legitimately depends on the draw
+            if sigs[0][0] is True or sigs[1][0] is True:
+                continue
+            # preconditions fail, yet the result differs with the draw: label by the first
+            # oracle gate that fails under this valuation (for the report / known-findings key)
+            # the exit taken when the draw succeeds tells which kind of gate sits after the draw:
+            # an exit built in Network.perform_action is a network-level gate, any other site
+            # (host dispatcher, subnet scan) a host-level one; the label is the first failing
+            # oracle gate *of that kind*
+            host_level = site0 is not None and not site0.endswith("Network.perform_action")
             first = None
             for g in req:
+                if (g in HOST_GATES) != host_level:
+                    continue
                 F = GATES[g]
                 if not f_eval(F, {a: v.get(a, False) for a in f_atoms(F)}):
                     first = g
                     break
-            if first is not None and first not in dep:
+            first = first or ("an unrecognised host-level precondition" if host_level
+                              else "an unrecognised network-level precondition")
+            if first not in dep:
                 dep[first] = (sigs[0], sigs[1])
         chk.ob("C07.partition", f"{K}: exits partition the valuations (exactly one exit each)",
                partition_bad is None,
                "" if partition_bad is None else f"{partition_bad[1]} exits for {partition_bad[0]}",
                d.fi.module.path)
-        for g in req:
+        for g in req + [x for x in dep if x not in req]:
             bad = g in dep
             rule = "C07.order"
             kind = "network-level" if g in NETWORK_GATES else "host-level"
